@@ -362,3 +362,29 @@ fn get_as_value(xs: []S, k: usize) -> %(U)s
     body.append("\tprint!(acc);")
     src = "\n".join(decls) + fns + "fn main()\n{\n" + "\n".join(body) + "\n}\n"
     return src, str(expected), tags
+
+
+def usize_cast_programs():
+    """casts between usize and every other integer type, of compile-time constants (a named constant, `|:T|`, `|array|`, a
+    literal) and of run-time values, placed where the generator folds them into constants or builds aggregates: structure
+    literal members, array literal elements, constants, arguments.  One construct per program (a program that aborts the
+    compiler is C02's business and hides the others).  Meant for BOTH targets: on wasm32 `usize` is 32 bits wide, so a cast
+    that is dropped as a "same representation" hint yields a mistyped constant that only llvm-as sees."""
+    out = []
+    ints = ["u64", "i64", "u32", "i32", "u16", "u8", "u128", "i128"]
+    for t in ints:
+        pre = ("const N: usize = 4;\nstruct H\n{\n\ta: %(t)s,\n\tb: %(t)s,\n}\nstruct U\n{\n\ta: usize,\n\tb: usize,\n}\n"
+               "fn takes(x: %(t)s) -> %(t)s\n{\n\treturn: x\n}\nfn takes_usize(x: usize) -> usize\n{\n\treturn: x\n}\n" % dict(t=t))
+        setup = "\tvar arr: [3]u8 = [1, 2, 3];\n\tvar k: usize = 2;\n\tvar v: %s = 9;\n" % t
+        for srcx in ["N", "|:H|", "|arr|", "5usize", "k"]:
+            for stmt in ["var h = H { a: %(s)s as %(t)s, b: 1 };", "var h = H { a: 1, b: (%(s)s as %(t)s) + 1 };",
+                         "var xs: [2]%(t)s = [%(s)s as %(t)s, 1];", "var r: %(t)s = takes(%(s)s as %(t)s);",
+                         "var r: %(t)s = %(s)s as %(t)s;"]:
+                out.append(pre + "fn main()\n{\n" + setup + "\t" + stmt % dict(t=t, s=srcx) + "\n}\n")
+            if srcx in ("N", "|:H|", "5usize"):
+                out.append(pre + "const C: %s = %s as %s;\nconst HC: H = H { a: %s as %s, b: 8 };\nfn main()\n{\n}\n" % (t, srcx, t, srcx, t))
+        for stmt in ["var u = U { a: v as usize, b: 1 };", "var u = U { a: 7%(t)s as usize, b: 1 };", "var ys: [2]usize = [v as usize, 1];",
+                     "var q: usize = takes_usize(v as usize);", "var q: usize = takes_usize(6%(t)s as usize);"]:
+            out.append(pre + "fn main()\n{\n" + setup + "\t" + stmt % dict(t=t) + "\n}\n")
+        out.append(pre + "const D: usize = 6%s as usize;\nconst UC: U = U { a: 6%s as usize, b: 8 };\nfn main()\n{\n}\n" % (t, t))
+    return out
